@@ -304,3 +304,96 @@ def init_chip(model):
             return [0x00]
         return []
     return chip
+
+
+# ---------------------------------------------------------------------------
+# RF receive side of the chip: who checks CRC_A
+# ---------------------------------------------------------------------------
+CIU_TXMODE, CIU_RXMODE = 0x6302, 0x6303
+
+
+class Pn53xRfChip(object):
+    """PN53x / RC-S956 with its CIU register file and the contactless receive
+    path, as far as CRC_A is concerned.
+
+    * WriteRegister stores, ReadRegister returns the stored values (concrete);
+    * InListPassiveTarget(106A) activates `target` = (sens_res, sel_res, uid)
+      and leaves CIU_TxMode/CIU_RxMode at 80h (TxCRCEn / RxCRCEn set), which
+      is what the firmware does for 106 kbps Type A;
+    * InCommunicateThru / InDataExchange deliver `air`, the octets the tag
+      sent (data + CRC_A): with RxCRCEn (CIU_RxMode bit 7) set the CIU checks
+      the CRC, strips it and reports error 02h on a mismatch (also for frames
+      too short to hold a CRC, e.g. the 4-bit ACK/NAK); with RxCRCEn clear the
+      octets are handed to the host as received, status 00h.
+    crc_a: callable(list of octets) -> 16 bit CRC_A (independent reference).
+    """
+
+    def __init__(self, sx, model, target, air, crc_a):
+        self.sx, self.model = sx, model
+        self.target, self.air, self.crc_a = target, list(air), crc_a
+        self.regs = {CIU_TXMODE: 0x00, CIU_RXMODE: 0x00}
+        self.rxcrc_at_exchange = None
+        self.fallback = init_chip(model)
+
+    def __call__(self, link, idx, code, data):
+        data = list(data)
+        st = [0x00] if self.model == 'pn533' else []
+        if code == 0x08:                        # WriteRegister: (addr, value)*
+            for i in range(0, len(data) - 2, 3):
+                self.regs[(data[i] << 8) | data[i + 1]] = data[i + 2]
+            return [0x00]
+        if code == 0x06:                        # ReadRegister: addr*
+            return st + [self.regs.get((data[i] << 8) | data[i + 1], 0x00)
+                         for i in range(0, len(data) - 1, 2)]
+        if code == 0x4A:                        # InListPassiveTarget
+            sens_res, sel_res, uid = self.target
+            self.regs[CIU_TXMODE] = 0x80
+            self.regs[CIU_RXMODE] = 0x80
+            return [1, 1] + list(sens_res) + list(sel_res) + [len(uid)] + list(uid)
+        if code in (0x42, 0x40):
+            air = self.air
+            n = len(air)
+            self.rxcrc_at_exchange = bool(self.regs[CIU_RXMODE] & 0x80)
+            if not self.rxcrc_at_exchange:
+                return [0x00] + air
+            if n < 3:
+                return [0x02]
+            want = self.crc_a(air[:n - 2])
+            if self.sx.truth(self.sx.all([air[n - 2] == (want & 0xFF),
+                                          air[n - 1] == (want >> 8)])):
+                return [0x00] + air[:n - 2]
+            return [0x02]
+        return self.fallback(link, idx, code, data)
+
+
+class Rcs380RfChip(object):
+    """RC-S380: InSetProtocol settings are (index, value) pairs, index 2 is
+    check_crc; InCommRF checks and strips the CRC iff check_crc != 0 and
+    reports CRC_ERROR (00000004h) on a mismatch"""
+
+    def __init__(self, sx, air, crc_a):
+        self.sx, self.air, self.crc_a = sx, list(air), crc_a
+        self.settings = {}
+        self.check_crc_at_exchange = None
+
+    def __call__(self, link, idx, code, data):
+        data = list(data)
+        if code == 0x02:
+            for i in range(0, len(data) - 1, 2):
+                self.settings[data[i]] = data[i + 1]
+            return [0x00]
+        if code == 0x04:
+            air = self.air
+            n = len(air)
+            self.check_crc_at_exchange = bool(self.settings.get(2, 0))
+            if not self.check_crc_at_exchange:
+                return [0, 0, 0, 0, 0x08] + air
+            ok = False
+            if n >= 3:
+                want = self.crc_a(air[:n - 2])
+                ok = self.sx.truth(self.sx.all([air[n - 2] == (want & 0xFF),
+                                                air[n - 1] == (want >> 8)]))
+            if ok:
+                return [0, 0, 0, 0, 0x08] + air[:n - 2]
+            return [0x04, 0, 0, 0]
+        return [0x00]
